@@ -36,7 +36,8 @@ Proof. exact memo_sequential. Qed.
 Print Assumptions C20_memo_sequential.
 
 (* 3. The memo protocols of the library, by name, are memo-shaped (with the library's
-      admissible-value relation R_lib), whatever continuation follows them. *)
+      admissible-value relation R_lib), whatever continuation follows them; `fx` = which of the
+      proposed repairs are present in the tree (the statements hold for every combination). *)
 Notation M := (memo_prog R_lib Imp_lib).
 Definition cont_ok K (c : prog) r := forall K', incl K K' -> M K' c r.
 
@@ -48,15 +49,15 @@ Theorem C20_protocols :
   (* CLASS_TO_DUMPER: get_dumper (store, then re-read) *)
   (forall tid K c r, (forall o K', incl K K' -> M K' (c o) r) -> M K (p_dumper tid c) r) /\
   (* FIELD_NAME_TO_LOAD_PARSER + key-cache seeding: _setup_load_config_for_cls, class without JSON paths *)
-  (forall cd K c r, no_paths cd -> cont_ok K c r -> M K (p_load_cfg cd c) r) /\
+  (forall fx cd K c r, no_paths cd -> cont_ok K c r -> M K (p_load_cfg fx cd c) r) /\
   (* IS_DUMP_CONFIG_SETUP (flag written AFTER the fill): setup_dump_config_for_cls_if_needed, no JSON paths *)
-  (forall cd K c r, no_paths cd -> cont_ok K c r -> M K (p_dump_cfg cd c) r) /\
+  (forall fx cd K c r, no_paths cd -> cont_ok K c r -> M K (p_dump_cfg fx cd c) r) /\
   (* setattr(cls, 'from_dict' / 'to_dict', generated function): _set_new_attribute *)
   (forall cd a K c r, cont_ok K c r -> M K (p_setattr cd a c) r) /\
   (* JSON key cache of the generated load function, positive and negative (ExplicitNull) entries *)
   (forall ks K c r, cont_ok K c r -> M K (key_loop ks c) r) /\
   (* FIELD_TO_DEFAULT, writer side (the READERS of a half-filled dict are refuted below) *)
-  (forall cd K c r, cont_ok K c r -> M K (p_defaults cd c) r) /\
+  (forall fx cd K c r, cont_ok K c r -> M K (p_defaults fx cd c) r) /\
   (* lookups.environ: Env.load_environ() *)
   (forall tid K c r, (forall K', incl K K' -> In (T_ENVIRON, 0) K' -> M K' c r) -> M K (p_load_environ tid false c) r) /\
   (* Env.var_names (cached class property) read after environ is loaded *)
@@ -71,29 +72,38 @@ Print Assumptions C20_protocols.
 (* 4. Complete programs in the safe region: CLASS_TO_LOAD_FUNC / CLASS_TO_DUMP_FUNC
       check -> generate -> store -> call, and EnvWizard.__init__. *)
 Theorem C20_load_plain :
-  forall tid cd ks K, no_paths cd -> M K (call_load tid cd ks) [OSeq].
+  forall fx tid cd ks K, no_paths cd -> M K (call_load fx tid cd ks) [OSeq].
 Proof. exact load_plain. Qed.
 Print Assumptions C20_load_plain.
 
 Theorem C20_dump_plain :
-  forall tid cd vals K, safe_dump cd -> Forall base_val vals -> M K (call_dump tid cd vals) [OSeq].
+  forall fx tid cd vals K, safe_dump cd -> vals_ok fx vals -> M K (call_dump fx tid cd vals) [OSeq].
 Proof. exact dump_plain. Qed.
 Print Assumptions C20_dump_plain.
 
-Theorem C20_env_plain : forall tid K, M K (call_env tid false) [OSeq].
+Theorem C20_env_plain : forall fx tid K, M K (call_env fx tid false) [OSeq].
 Proof. exact env_plain. Qed.
 Print Assumptions C20_env_plain.
 
+(* 4b. The REPAIRED hook scan (`for t in tuple(hooks)`, proposed_fixes/F30.patch) is memo-shaped for
+       EVERY run-time type of the value: with the repair in the tree, first sight of a subtype is
+       inside the safe region of C20_partial (vals_ok fx holds for all values). *)
+Theorem C20_hook_scan_repaired :
+  forall fx o v K c r, fx30 fx = true -> cont_ok K c r -> M K (p_value fx o v c) r.
+Proof. exact M_p_value_repaired. Qed.
+Print Assumptions C20_hook_scan_repaired.
+
 (* 5. C20 on the safe region: any number of threads, each any list of load / dump /
       EnvWizard() calls on a class without JSON-path fields (dump: no skip_defaults together
-      with default fields; values of hook-table types; no _reload) - under EVERY schedule
+      with default fields; values of hook-table types, or any values once the hook scan is
+      repaired; no _reload) - under EVERY schedule
       every finished thread returned the sequential result of each of its calls.
       MISSING for the full property: classes outside the region (refuted below), v1. *)
 Theorem C20_partial :
-  forall (cd : cdesc) (pss : list (list call)),
-    Forall (Forall (safe_call cd)) pss ->
+  forall (fx : fixes) (cd : cdesc) (pss : list (list call)),
+    Forall (Forall (safe_call fx cd)) pss ->
     forall (sched : list nat) (i : nat) (t : thread) (os : list outcome),
-      nth_error (snd (run sched (scenario cd pss))) i = Some t ->
+      nth_error (snd (run sched (scenario fx cd pss))) i = Some t ->
       finished t = Some os ->
       exists cs, nth_error pss i = Some cs /\ os = repeat OSeq (List.length cs).
 Proof. exact lib_linearizable. Qed.
@@ -102,19 +112,19 @@ Print Assumptions C20_partial.
 (* non-vacuity: a three-field class, three threads with five calls between them *)
 Example C20_partial_nonvacuous :
   let cd := mkC [mkF false false; mkF false false; mkF true false] true false false in
-  Forall (Forall (safe_call cd))
+  Forall (Forall (safe_call no_fixes cd))
     [[CLoad [KCamel 0; KExact 1; KUnknown 0]; CDump [VTBase 1; VTBase 0; VTBase 1]];
      [CDump [VTBase 1; VTBase 1; VTBase 1]; CLoad [KExact 0]];
      [CEnv false]].
 Proof.
   cbv zeta. repeat constructor; cbn;
-    try (eexists; split; [reflexivity | apply PeanoNat.Nat.ltb_lt; vm_compute; reflexivity]).
+    try (right; repeat constructor; eexists; split; [reflexivity | apply PeanoNat.Nat.ltb_lt; vm_compute; reflexivity]).
 Qed.
 
 (* ... and on it a concrete interleaving really finishes with those results *)
 Example C20_partial_runs :
   let cd := mkC [mkF false false; mkF true false] false false false in
-  let c := scenario cd [[CLoad [KCamel 0; KExact 1]]; [CDump [VTBase 1; VTBase 1]]] in
+  let c := scenario no_fixes cd [[CLoad [KCamel 0; KExact 1]]; [CDump [VTBase 1; VTBase 1]]] in
   outcomes (run (micro_of RUN_FUEL [0;1;1;0;0;1;0;1;1;1;0;0;0;0;0;1;1;1;1;1;1;1;1;1;1;1;1;0;0;0;0;0;0;0] c) c)
   = [Some [OSeq]; Some [OSeq]].
 Proof. vm_compute. reflexivity. Qed.
@@ -178,6 +188,21 @@ Theorem C20_refuted_env_reload :
     outcomes (run sequential2' cfg_env_reload) = [Some [OSeq]; Some [OSeq]].
 Proof. exists (micro_of RUN_FUEL seg_env_reload cfg_env_reload). vm_compute. repeat split. Qed.
 Print Assumptions C20_refuted_env_reload.
+
+(* 6f. The proposed repairs (proposed_fixes/F30..F34.patch), switched on in the model, remove every
+       witness: the same yield-point schedules (completed by running both threads to their end) now
+       give the sequential results.  This is a statement about THESE schedules only; that the repaired
+       protocols are linearizable under every schedule is established by the exhaustive bounded
+       exploration of the harness on a repaired tree, not proved here. *)
+Theorem C20_repairs_remove_witnesses :
+  replay_on seg_hook_scan fixed_hook_scan = [Some [OSeq]; Some [OSeq]] /\
+  replay_on seg_path_dump fixed_path_dump = [Some [OSeq]; Some [OSeq]] /\
+  replay_on seg_path_load fixed_path_load = [Some [OSeq]; Some [OSeq]] /\
+  replay_on seg_defaults fixed_defaults = [Some [OSeq]; Some [OSeq]] /\
+  replay_on seg_v1_catchall fixed_v1_catchall = [Some [OSeq]; Some [OSeq]] /\
+  replay_on seg_env_reload fixed_env_reload = [Some [OSeq]; Some [OSeq]].
+Proof. vm_compute. repeat split. Qed.
+Print Assumptions C20_repairs_remove_witnesses.
 
 (* 7. Tie T: the default dump-hook table (iteration order of the hook scan) regenerated from
       the source is the documented one; the positions the witnesses use are those of dict / str. *)
